@@ -174,7 +174,7 @@ def run_history(ctx: Ctx, P, M, ops):
 
 def main(ctx: Ctx):
     ctx.lean_gate()
-    n = 200 if ctx.tier == "quick" else 5000
+    n = 200 if ctx.tier == "quick" else 30000
     for i in range(n):
         if i % 2:
             M = random_mtl(ctx.rng)
